@@ -10,6 +10,7 @@ THEOREMS = [NS + t for t in [
     "C11Lib2_step_preserves", "C11Lib2_reachable", "C11Lib2_reachable_exec", "C11Lib2_exec_iff",
     "C11Lib2_from_any_wellformed", "C11Lib2_referential_integrity", "C11Lib2_foreign_key_check_clean",
     "C11Lib2_reachable_foreign_key_check_clean", "C11Lib2_failed_call_unchanged", "C11Lib2_unscoped_counterexample",
+    "C11Lib2_prepare_list_counterexample",
     "C11Lib2_stored_blobs_decode", "C11Lib2_framed_blobs_decode", "C11Lib2_reachable_rows_encodable"]]
 ASSUMPTIONS = [
     "2.x composite (Lib/V2.lean): SqliteSemantics as in the track and crate packages, plus: trigger_after_update_Track "
@@ -47,7 +48,7 @@ def tie(ctx):
     for s in schemas:
         for _ in range(n):
             hid += 1
-            ops = L.gen_history(rng, ctx.tier, hid, rng.choice([40, 60]))
+            ops = L.gen_history(rng, ctx.tier, hid, rng.choice([40, 60]), prepare=True)
             scripts.append(L.wrap(s, ops, "disk" if rng.random() < 0.15 else "mem"))
     # fault stream: database::remove_track of a track in two crates with ChangeLog rows, a fault at every statement
     nf = 0
